@@ -58,6 +58,19 @@ Proof.
   - destruct Hin as [X|X]; [discriminate|exact (IH H k0 n X)].
 Qed.
 
+(** fix d65cbbf: no record/alert/expr value is a null spelled with text *)
+Lemma first_null_text_none : forall l,
+  first_null_text l = None -> forall k n, In (k, Some n) l -> n_tag n = nullTag -> n_value n = "".
+Proof.
+  induction l as [|[k o] r IH]; intros H k0 n Hin T; [destruct Hin|].
+  cbn [first_null_text] in H. destruct o as [m|].
+  - destruct ((n_tag m =? nullTag) && negb (n_value m =? ""))%bool eqn:E; [discriminate|].
+    destruct Hin as [X|X]; [|exact (IH H k0 n X T)]. inversion X; subst m.
+    rewrite T in E. cbn [andb] in E. change (nullTag =? nullTag) with true in E. cbn [andb] in E.
+    apply negb_false_iff in E. now apply String.eqb_eq.
+  - destruct Hin as [X|X]; [discriminate|exact (IH H k0 n X T)].
+Qed.
+
 Lemma validate_string_map_loop_none fld all off lines : forall l seen,
   validate_string_map_loop fld all off lines seen l = None ->
   (forall k v, In (k, v) l -> is_tag (n_tag v) strTag = true) /\
@@ -185,11 +198,6 @@ Section Rule.
   Qed.
 
   Definition plain_below (n : node) : Prop := forall m, reach n m -> plain_node m.
-
-  Definition no_null_strings (rn : node) : Prop :=
-    forall k x, In (k, x) (mapping_nodes rn) ->
-      field_of (n_value k) = FRecord \/ field_of (n_value k) = FAlert \/ field_of (n_value k) = FExpr ->
-      n_tag x <> nullTag.
 
   Lemma plain_below_content n c : plain_below n -> In c (n_content n) -> plain_below c.
   Proof. intros H Hc m Hm. apply H. eapply reach_content; eassumption. Qed.
@@ -595,13 +603,13 @@ Section Rule.
   Qed.
 
   Theorem rule_sound rn glabels :
-    plain_below rn -> no_null_strings rn ->
+    plain_below rn ->
     r_error (PRS lines rn) = None ->
     rule_blocks expr_ok dur_ok tmpl_pint glabels (PRS lines rn) = false ->
     exists pr, dec_rule str_ok dur_ok rn = DOk pr /\
                rule_valid expr_ok dur_zero metric_ok lname_ok lvalue_ok tmpl_prom pr = true.
   Proof.
-    intros Hp Hnn Herr Hblk.
+    intros Hp Herr Hblk.
     destruct (rule_accept_facts rn Hp Herr) as (s & K & Hc & Hknown & Hnd & Hsl & Hall & Hfin).
     pose proof (rule_decodes rn Hp Herr) as Hdec. cbv zeta in Hdec.
     set (ps := mapping_nodes rn) in *.
@@ -615,11 +623,14 @@ Section Rule.
     pose proof (slot_labels ps s (Hsl FLabels ltac:(discriminate))) as Sl.
     pose proof (slot_ann ps s (Hsl FAnn ltac:(discriminate))) as Sn.
     pose proof (nth_checks_none _ Hall) as Hnth.
+    (* positions in [rule_checks]: 5 scalar tags, 6 null spelled with text (fix d65cbbf), 7 map tags, 8/9 string maps,
+       10/11 required keys, 13 metric name, 14 braces, 15 labels, 16 annotations *)
     pose proof (Hnth 0 _ eq_refl) as C0. pose proof (Hnth 2 _ eq_refl) as C2. pose proof (Hnth 3 _ eq_refl) as C3.
-    pose proof (Hnth 4 _ eq_refl) as C4. pose proof (Hnth 5 _ eq_refl) as C5. pose proof (Hnth 6 _ eq_refl) as C6.
-    pose proof (Hnth 7 _ eq_refl) as C7. pose proof (Hnth 8 _ eq_refl) as C8. pose proof (Hnth 9 _ eq_refl) as C9.
-    pose proof (Hnth 10 _ eq_refl) as C10. pose proof (Hnth 12 _ eq_refl) as C12. pose proof (Hnth 13 _ eq_refl) as C13.
-    pose proof (Hnth 14 _ eq_refl) as C14. pose proof (Hnth 15 _ eq_refl) as C15.
+    pose proof (Hnth 4 _ eq_refl) as C4. pose proof (Hnth 5 _ eq_refl) as C5. pose proof (Hnth 6 _ eq_refl) as CN.
+    pose proof (Hnth 7 _ eq_refl) as C6.
+    pose proof (Hnth 8 _ eq_refl) as C7. pose proof (Hnth 9 _ eq_refl) as C8. pose proof (Hnth 10 _ eq_refl) as C9.
+    pose proof (Hnth 11 _ eq_refl) as C10. pose proof (Hnth 13 _ eq_refl) as C12. pose proof (Hnth 14 _ eq_refl) as C13.
+    pose proof (Hnth 15 _ eq_refl) as C14. pose proof (Hnth 16 _ eq_refl) as C15.
     clear Hnth Hall.
     (* Prometheus lookups *)
     assert (Lk : forall f, f <> FUnknown -> look (field_name f) a = option_map snd (find_field f ps)).
@@ -637,7 +648,10 @@ Section Rule.
     assert (T6 : forall k n, In (k, Some n) [("labels", onode (s_labels s)); ("annotations", onode (s_ann s))] ->
                              is_tag (n_tag n) mapTag = true).
     { apply first_bad_tag_none. destruct (first_bad_tag mapTag _) as [[k0 p0]|]; [discriminate C6|reflexivity]. }
-    clear C5 C6.
+    assert (TN : forall k n, In (k, Some n) [("record", onode (s_record s)); ("alert", onode (s_alert s)); ("expr", onode (s_expr s))] ->
+                             n_tag n = nullTag -> n_value n = "").
+    { apply first_null_text_none. destruct (first_null_text _) as [[k0 p0]|]; [discriminate CN|reflexivity]. }
+    clear C5 C6 CN.
     rewrite Sr, Sa, Se, Sf, Sk, Sl, Sn in *.
     unfold rule_final in Hfin. rewrite Sr, Sa, Se, Sf, Sk, Sl, Sn in Hfin.
     (* each pair is the one found for its field *)
@@ -647,8 +661,6 @@ Section Rule.
       - apply Hsl. exact (Hknown (k, x) Hin). }
     assert (Hpl : forall f k x, find_field f ps = Some (k, x) -> plain_below x /\ In (k, x) ps).
     { intros f k x E. destruct (find_field_In f ps k x E) as [Hin _]. split; [|exact Hin]. exact (proj2 (plain_pairs rn k x Hp Hin)). }
-    assert (Hnn' : forall f k x, find_field f ps = Some (k, x) -> f = FRecord \/ f = FAlert \/ f = FExpr -> n_tag x <> nullTag).
-    { intros f k x E Hf. destruct (find_field_In f ps k x E) as [Hin Ff]. apply (Hnn k x Hin). rewrite Ff. exact Hf. }
     destruct (find_field FRecord ps) as [[kr xr]|] eqn:Fr.
     - (* ---- recording rule ---- *)
       destruct (find_field FAlert ps) as [[ka xa]|] eqn:Fa; [discriminate C0|].
@@ -665,8 +677,10 @@ Section Rule.
       inversion Ee; subst m e. rewrite nyn_value in Vr, Ve.
       rewrite (node_value_plain xr (plain_self _ Hpr)) in Vr.
       rewrite (node_value_plain xe (plain_self _ Hpe)) in Ve, Hblk.
-      pose proof (dec_str_value xr Hpr Tr (Hnn' _ _ _ Fr (or_introl eq_refl))) as Dr.
-      pose proof (dec_str_value xe Hpe Te (Hnn' _ _ _ Fe (or_intror (or_intror eq_refl)))) as De.
+      assert (Nr : n_tag xr <> nullTag) by (intro X; exact (Vr (TN "record" xr (or_introl eq_refl) X))).
+      assert (Ne : n_tag xe <> nullTag) by (intro X; exact (Ve (TN "expr" xe (or_intror (or_intror (or_introl eq_refl))) X))).
+      pose proof (dec_str_value xr Hpr Tr Nr) as Dr.
+      pose proof (dec_str_value xe Hpe Te Ne) as De.
       cbn [isSome orb] in C14.
       (* labels *)
       assert (HL : match find_field FLabels ps with
@@ -716,8 +730,10 @@ Section Rule.
       inversion Ee; subst m e. rewrite nyn_value in Va, Ve.
       rewrite (node_value_plain xa (plain_self _ Hpa)) in Va.
       rewrite (node_value_plain xe (plain_self _ Hpe)) in Ve, Hex.
-      pose proof (dec_str_value xa Hpa Ta (Hnn' _ _ _ Fa (or_intror (or_introl eq_refl)))) as Da.
-      pose proof (dec_str_value xe Hpe Te (Hnn' _ _ _ Fe (or_intror (or_intror eq_refl)))) as De.
+      assert (Na : n_tag xa <> nullTag) by (intro X; exact (Va (TN "alert" xa (or_intror (or_introl eq_refl)) X))).
+      assert (Ne : n_tag xe <> nullTag) by (intro X; exact (Ve (TN "expr" xe (or_intror (or_intror (or_introl eq_refl))) X))).
+      pose proof (dec_str_value xa Hpa Ta Na) as Da.
+      pose proof (dec_str_value xe Hpe Te Ne) as De.
       cbn [isSome orb] in C14.
       (* for / keep_firing_for *)
       assert (HF : match find_field FFor ps with
